@@ -1,381 +1,6 @@
-import Inkayaku.Model.Board
-import Inkayaku.Gen.Rs.MakeUnmake
-import Inkayaku.Props.Translated.MoveBits
-import Inkayaku.Props.Translated.Check
-import Inkayaku.Props.Translated.ZobristXor
-import Inkayaku.Proofs.BoardCongr
-/-! Part of `Props/Translated`: see `Props/Translated/Basic.lean` for the overview.  One file per translated Rust source, so that a
-change of one Rust function re-opens exactly the obligations (and the properties) that depend on it.
-
-### n. `Bitboard::{make, unmake, make_castle, unmake_castle}` (board/src/board.rs) = `Board.makeF` / `unmakeF` (Model/Board.lean)
-
-The generated `Bitboard.make` / `.unmake` take the six fields of the Rust `Bitboard` (`white`, `black` as regenerated
-`PlayerState` structures = `toRsSide` of the model's sides) and the move word, and return the six new fields.
-`get_active_and_passive_mut()` is translated as copy-in / write-back of the two borrowed fields, the `*x.pawns_ref() &= ..`
-statements as bounds-checked array updates (`PlayerState::{occupancy_ref, kings_ref, rooks_ref, pawns_ref}` yield the
-index), `make_castle(active, ..)` as a function returning the new `PlayerState`.
-
-`rs_make_eq` / `rs_unmake_eq`: under hypotheses that are exactly the ways the Rust can panic (colour code above 1, `u32`
-clock overflow / underflow, the `_ => panic!()` arm of the castle `match`, a piece code 7 indexing the 7-element
-occupancy array) the generated function returns the fields of the model's `makeF` / `unmakeF` on the decoded move.
-All of these hold for well-formed boards and generated moves (Model/WF.lean).
--/
-
-set_option linter.unusedSimpArgs false
-
-namespace Inkayaku.Translated
-open Inkayaku.Board Inkayaku.Gen Inkayaku.MoveBits Inkayaku.BoardCongr
-
-/-! #### array accesses of `PlayerState` through `toRsSide` -/
-
-theorem side_idx (s : Side) (p : Nat) (hp : p < 7) : Rs.vecIdx (toRsSide s).occupancy (p : Int) = some (s.get p) := by
-  have : p = 0 ∨ p = 1 ∨ p = 2 ∨ p = 3 ∨ p = 4 ∨ p = 5 ∨ p = 6 := by omega
-  rcases this with h | h | h | h | h | h | h <;> subst h <;> rfl
-
-theorem side_set (s : Side) (p : Nat) (hp : p < 7) (v : UInt64) :
-    Rs.vecSet (toRsSide s).occupancy (p : Int) v = some (toRsSide (s.set p v)).occupancy := by
-  have : p = 0 ∨ p = 1 ∨ p = 2 ∨ p = 3 ∨ p = 4 ∨ p = 5 ∨ p = 6 := by omega
-  rcases this with h | h | h | h | h | h | h <;> subst h <;> rfl
-
-theorem set_ge (s : Side) (p : Nat) (hp : 7 ≤ p) (v : UInt64) : s.set p v = s := by
-  obtain ⟨k, rfl⟩ : ∃ k, p = k + 7 := ⟨p - 7, by omega⟩
-  rfl
-
-theorem side_with_occ (s : Side) (p : Nat) (v : UInt64) :
-    ({ toRsSide s with occupancy := (toRsSide (s.set p v)).occupancy } : Rs.PlayerState) = toRsSide (s.set p v) := by
-  by_cases hp : p < 7
-  · have : p = 0 ∨ p = 1 ∨ p = 2 ∨ p = 3 ∨ p = 4 ∨ p = 5 ∨ p = 6 := by omega
-    rcases this with h | h | h | h | h | h | h <;> subst h <;> rfl
-  · rw [set_ge s p (by omega)]
-
-theorem side_idx_oob (s : Side) (p : Nat) (hp : 7 ≤ p) : Rs.vecIdx (toRsSide s).occupancy (p : Int) = none := by
-  unfold Rs.vecIdx
-  rw [List.getElem?_eq_none_iff]
-  simp [toRsSide]; omega
-
-theorem get_set_same (s : Side) (p : Nat) (hp : p < 7) (v : UInt64) : (s.set p v).get p = v := by
-  have : p = 0 ∨ p = 1 ∨ p = 2 ∨ p = 3 ∨ p = 4 ∨ p = 5 ∨ p = 6 := by omega
-  rcases this with h | h | h | h | h | h | h <;> subst h <;> rfl
-
-theorem set_set_same (s : Side) (p : Nat) (v w : UInt64) : (s.set p v).set p w = s.set p w := by
-  by_cases hp : p < 7
-  · have : p = 0 ∨ p = 1 ∨ p = 2 ∨ p = 3 ∨ p = 4 ∨ p = 5 ∨ p = 6 := by omega
-    rcases this with h | h | h | h | h | h | h <;> subst h <;> rfl
-  · rw [set_ge s p (by omega), set_ge s p (by omega)]
-
-/-- one `*x.place(p) op= ..` statement of the generated code on `toRsSide s`: the model's `Side.set` -/
-theorem place_update (s : Side) (p : Nat) (hp : p < 7) (g : UInt64 → UInt64) :
-    (do
-      let old ← Rs.vecIdx (toRsSide s).occupancy (p : Int)
-      let arr ← Rs.vecSet (toRsSide s).occupancy (p : Int) (g old)
-      pure ({ toRsSide s with occupancy := arr } : Rs.PlayerState)) = some (toRsSide (s.set p (g (s.get p)))) := by
-  rw [side_idx s p hp]
-  simp only [Option.bind_eq_bind, Option.bind_some, side_set s p hp, side_with_occ, Option.pure_def]
-
-theorem pawns_index : Rs.PlayerState.pawns_ref_index = some ((1 : Nat) : Int) := by decide
-theorem rooks_index : Rs.PlayerState.rooks_ref_index = some ((4 : Nat) : Int) := by decide
-theorem kings_index : Rs.PlayerState.kings_ref_index = some ((6 : Nat) : Int) := by decide
-theorem occ_index (p : Nat) (hp : p < 18446744073709551616) :
-    Rs.PlayerState.occupancy_ref_index p.toUInt64 = some (p : Int) := by
-  unfold Rs.PlayerState.occupancy_ref_index Rs.u64ToInt
-  simp only [Nat.toUInt64_eq, UInt64.toNat_ofNat', Nat.mod_eq_of_lt hp, Option.pure_def]
-  rw [Rs.cast_usize (by omega) (by omega)]
-
-theorem shl_one (s : Nat) (hs : s < 64) : Rs.u64Shl (1 : UInt64) (s : Int) = some (bitU s) := by
-  rw [u64Shl_natCast _ _ hs]; rfl
-
-/-- `make_castle` on `toRsSide s` -/
-theorem rs_make_castle_eq (s : Side) (rs ks rt kt : UInt64) :
-    Rs.Bitboard.make_castle (toRsSide s) rs ks rt kt =
-      some (toRsSide { s with rooks := clearBit s.rooks rs ||| rt, kings := clearBit s.kings ks ||| kt }) := by
-  unfold Rs.Bitboard.make_castle
-  simp only [rooks_index, kings_index, Option.bind_eq_bind, Option.bind_some, Option.pure_def,
-    side_idx _ 4 (by decide), side_idx _ 6 (by decide), side_set _ 4 (by decide), side_set _ 6 (by decide), side_with_occ]
-  rfl
-
-theorem rs_unmake_castle_eq (s : Side) (rs ks rt kt : UInt64) :
-    Rs.Bitboard.unmake_castle (toRsSide s) rs ks rt kt =
-      some (toRsSide { s with rooks := clearBit s.rooks rt ||| rs, kings := clearBit s.kings kt ||| ks }) := by
-  unfold Rs.Bitboard.unmake_castle
-  simp only [rs_make_castle_eq, Option.bind_eq_bind, Option.bind_some, Option.pure_def]
-
-
-theorem set_qs (s : Side) (p : Nat) (v : UInt64) : (s.set p v).qs = s.qs := by
-  by_cases hp : p < 7
-  · have : p = 0 ∨ p = 1 ∨ p = 2 ∨ p = 3 ∨ p = 4 ∨ p = 5 ∨ p = 6 := by omega
-    rcases this with h | h | h | h | h | h | h <;> subst h <;> rfl
-  · rw [set_ge s p (by omega)]
-
-theorem set_ks (s : Side) (p : Nat) (v : UInt64) : (s.set p v).ks = s.ks := by
-  by_cases hp : p < 7
-  · have : p = 0 ∨ p = 1 ∨ p = 2 ∨ p = 3 ∨ p = 4 ∨ p = 5 ∨ p = 6 := by omega
-    rcases this with h | h | h | h | h | h | h <;> subst h <;> rfl
-  · rw [set_ge s p (by omega)]
-
-theorem toRs_qs (s : Side) : (toRsSide s).queen_side_castle = s.qs := rfl
-theorem toRs_ks (s : Side) : (toRsSide s).king_side_castle = s.ks := rfl
-
-/-- a `PlayerState` assembled from the occupancy of one side and the castling flags of another -/
-theorem repack (s' : Side) (q k : Bool) :
-    Rs.PlayerState.mk (toRsSide s').occupancy q k = toRsSide { s' with qs := q, ks := k } := rfl
-
-theorem side_eta (s : Side) : ({ s with qs := s.qs, ks := s.ks } : Side) = s := by cases s; rfl
-
-theorem shl8 (x : UInt64) : Rs.u64Shl x 8 = some (x <<< 8) := by
-  simp [Rs.u64Shl]
-theorem shr8 (x : UInt64) : Rs.u64Shr x 8 = some (x >>> 8) := by
-  simp [Rs.u64Shr]
-
-theorem castle_masks :
-    Rs.A1_MASK = some (bitU A1) ∧ Rs.D1_MASK = some (bitU D1) ∧ Rs.F1_MASK = some (bitU F1) ∧ Rs.H1_MASK = some (bitU H1) ∧
-    Rs.A8_MASK = some (bitU A8) ∧ Rs.D8_MASK = some (bitU D8) ∧ Rs.F8_MASK = some (bitU F8) ∧ Rs.H8_MASK = some (bitU H8) := by
-  decide
-
-theorem with_flags_set (X : Side) (p : Nat) (v : UInt64) (q k : Bool) (hq : X.qs = q) (hk : X.ks = k) :
-    ({ X.set p v with qs := q, ks := k } : Side) = X.set p v := by
-  subst hq hk
-  by_cases hp : p < 7
-  · have : p = 0 ∨ p = 1 ∨ p = 2 ∨ p = 3 ∨ p = 4 ∨ p = 5 ∨ p = 6 := by omega
-    rcases this with h | h | h | h | h | h | h <;> subst h <;> rfl
-  · rw [set_ge X p (by omega)]
-
-theorem set_one (s : Side) (v : UInt64) : s.set 1 v = { s with pawns := v } := rfl
-theorem get_one (s : Side) : s.get 1 = s.pawns := rfl
-
-/-- the six fields of the Rust `Bitboard` for a model board -/
-def boardFields (b : Board) : Rs.PlayerState × Rs.PlayerState × Int × Int × Int × Int :=
-  (toRsSide b.white, toRsSide b.black, (b.turn : Int), (b.ep : Int), (b.fullmove : Int), (b.halfmove : Int))
-
-theorem rs_is_white_turn_eq (t : Nat) : Rs.Bitboard.is_white_turn (t : Int) = some (t == 0) := by
-  unfold Rs.Bitboard.is_white_turn Rs.WHITE
-  by_cases h : t = 0 <;> simp [h]
-
-/-- the two `if mv.is_.._lost_.._castle() { x.king_side_castle = v; }` statements on `toRsSide s` -/
-theorem flags2 {β : Type} (s : Side) (k q v : Bool) (F : Rs.PlayerState → Option β) :
-    ((if k = true then some (Rs.PlayerState.mk (toRsSide s).occupancy (toRsSide s).queen_side_castle v) else some (toRsSide s)).bind
-      fun a => (if q = true then some (Rs.PlayerState.mk a.occupancy v a.king_side_castle) else some a).bind F) =
-    F (toRsSide (if v then giveRights s k q else dropRights s k q)) := by
-  cases k <;> cases q <;> cases v <;> rfl
-
-theorem target_lt (b : UInt64) : (decode b).target < 64 := by
-  show field b targetSquareMask targetSquareShift < 64
-  rw [field_eq b targetSquareMask targetSquareShift 6 (by decide) (by decide) (by decide)]
-  exact Nat.mod_lt _ (by decide)
-
-theorem source_lt (b : UInt64) : (decode b).source < 64 := by
-  show field b sourceSquareMask sourceSquareShift < 64
-  rw [field_eq b sourceSquareMask sourceSquareShift 6 (by decide) (by decide) (by decide)]
-  exact Nat.mod_lt _ (by decide)
-
-theorem field_lt64 (b : UInt64) (m s : Nat) : field b m s < 18446744073709551616 := by
-  unfold field; exact UInt64.toNat_lt _
-
-theorem rs_make_eq (b : Board) (bits : UInt64)
-    (hturn : b.turn ≤ 1) (hfull : b.fullmove + b.turn < 4294967296)
-    (hhalf : (decode bits).halfmoveReset = false → b.halfmove + 1 < 4294967296)
-    (hC : (decode bits).castle = true → castleRook (decode bits).target ≠ none)
-    (hP : (decode bits).castle = false → (decode bits).enPassant = false →
-      (decode bits).pieceAttacked < 7 ∧
-        (if (decode bits).promotion != 0 then (decode bits).promotion < 7 else (decode bits).pieceMoved < 7)) :
-    Rs.Bitboard.make (toRsSide b.white) (toRsSide b.black) b.turn b.ep b.fullmove b.halfmove bits =
-      some (boardFields (makeF b (decode bits))) := by
-  have htg := target_lt bits
-  have hsrc := source_lt bits
-  have hprom : (decode bits).promotion < 18446744073709551616 := field_lt64 _ _ _
-  have hpm : (decode bits).pieceMoved < 18446744073709551616 := field_lt64 _ _ _
-  have hpa : (decode bits).pieceAttacked < 18446744073709551616 := field_lt64 _ _ _
-  have hnep : (decode bits).nextEp < 4294967296 := by
-    show field bits nextEnPassantMask nextEnPassantShift < 4294967296
-    rw [field_eq bits nextEnPassantMask nextEnPassantShift 6 (by decide) (by decide) (by decide)]
-    exact Nat.lt_of_lt_of_le (Nat.mod_lt _ (by decide)) (by decide)
-  unfold Rs.Bitboard.make
-  obtain ⟨f1, f2, f3, f4, f5, f6, f7, f8, f9, f10, f11, f12, f13, f14, f15, f16⟩ := fold_decode bits
-  simp only [rs_is_halfmove_reset, rs_get_next_en_passant_square, rs_is_self_lost_king_side_castle,
-    rs_is_self_lost_queen_side_castle, rs_is_opponent_lost_king_side_castle, rs_is_opponent_lost_queen_side_castle,
-    rs_get_piece_moved, rs_get_promotion_piece,
-    rs_get_piece_attacked, rs_get_source_square, rs_get_target_square, rs_is_castle_move, rs_is_en_passant_attack,
-    rs_is_promotion, f1, f2, f3, f4, f5, f6, f7, f8, f9, f10, f11, f12, f13, f14, f15, f16]
-  clear f1 f2 f3 f4 f5 f6 f7 f8 f9 f10 f11 f12 f13 f14 f15 f16
-  generalize decode bits = f at *
-  clear bits
-  have hfullchk : Rs.chk Rs.Ty.u32 ((b.fullmove : Int) + (b.turn : Int)) = some ((b.fullmove + b.turn : Nat) : Int) := by
-    rw [Rs.chk_u32 (by omega) (by omega)]; rfl
-  simp only [rs_is_white_turn_eq, hfullchk, rs_opposite_turn_eq b.turn hturn, Option.bind_eq_bind, Option.bind_some,
-    Option.pure_def, shl_one _ hsrc, shl_one _ htg]
-  have hhchk : (if f.halfmoveReset = true then some 0 else Rs.chk Rs.Ty.u32 ((b.halfmove : Int) + 1)) =
-      some (((if f.halfmoveReset then 0 else b.halfmove + 1 : Nat)) : Int) := by
-    cases hr : f.halfmoveReset
-    · have := hhalf hr
-      simp only [Bool.false_eq_true, if_false]
-      rw [Rs.chk_u32 (by omega) (by omega)]; rfl
-    · rfl
-  simp only [hhchk, Option.bind_some]
-  have hT : b.turn = 0 ∨ b.turn = 1 := by omega
-  obtain ⟨mA1, mD1, mF1, mH1, mA8, mD8, mF8, mH8⟩ := castle_masks
-  rw [makeF_eq]
-  unfold mkMover mkOther
-  rcases hT with hT | hT <;>
-  · simp only [hT, show ((1 - 0 : Nat) == 0) = false from rfl, show ((0 : Nat) == 0) = true from rfl,
-      show ((1 - 1 : Nat) == 0) = true from rfl, show ((1 : Nat) == 0) = false from rfl, Bool.false_eq_true,
-      if_false, if_true, flags2, Board.whiteTurn, Board.active, Board.passive, boardFields]
-    cases hcas : f.castle
-    · simp only [Bool.false_eq_true, if_false]
-      cases hep : f.enPassant
-      · simp only [Bool.false_eq_true, if_false]
-        obtain ⟨hpa7, hx⟩ := hP hcas hep
-        cases hpr : (f.promotion != 0)
-        · -- normal move
-          simp only [hpr, Bool.false_eq_true, if_false] at hx ⊢
-          simp only [occ_index _ hpm, occ_index _ hpa, Option.bind_some, side_idx _ _ hx, side_idx _ _ hpa7,
-            side_set _ _ hx, side_set _ _ hpa7, repack, toRs_qs, toRs_ks, get_set_same _ _ hx, set_set_same, NO_PIECE,
-            with_flags_set _ _ _ _ _ rfl rfl, clearBit, Nat.sub_zero, Nat.add_zero, hpr, Bool.false_eq_true, if_false, if_true]
-        · -- promotion
-          simp only [hpr, if_true] at hx ⊢
-          simp only [occ_index _ hprom, occ_index _ hpa, pawns_index, Option.bind_some, side_idx _ _ hx, side_idx _ _ hpa7,
-            side_idx _ 1 (by decide), side_set _ 1 (by decide),
-            side_set _ _ hx, side_set _ _ hpa7, repack, toRs_qs, toRs_ks, NO_PIECE, set_one, get_one,
-            with_flags_set _ _ _ _ _ rfl rfl, clearBit, Nat.sub_zero, Nat.add_zero, hpr, Bool.false_eq_true, if_false, if_true]
-      · -- en passant
-        simp only [if_true, pawns_index, Option.bind_some, side_idx _ 1 (by decide), side_set _ 1 (by decide), shl8, shr8,
-          repack, toRs_qs, toRs_ks, set_one, get_one, clearBit, epVictim, Nat.sub_zero, Nat.add_zero, Bool.false_eq_true,
-          if_false, if_true]
-    · -- castle
-      have hr := hC hcas
-      simp only [if_true]
-      unfold castleRook at hr ⊢
-      have c1 : Rs.C1 = ((C1 : Nat) : Int) := rfl
-      have g1 : Rs.G1 = ((G1 : Nat) : Int) := rfl
-      have c8 : Rs.C8 = ((C8 : Nat) : Int) := rfl
-      have g8 : Rs.G8 = ((G8 : Nat) : Int) := rfl
-      simp only [c1, g1, c8, g8, Int.natCast_inj, mA1, mD1, mF1, mH1, mA8, mD8, mF8, mH8, Option.bind_some,
-        rs_make_castle_eq]
-      by_cases t1 : f.target = C1
-      · simp [t1, C1, G1]
-      · by_cases t2 : f.target = G1
-        · simp [t2, G1, C1]
-        · by_cases t3 : f.target = C8
-          · simp [t3, C8, G1, C1]
-          · by_cases t4 : f.target = G8
-            · simp [t4, G8, C8, G1, C1]
-            · exfalso; simp [t1, t2, t3, t4] at hr
-
-#print axioms rs_make_eq
-
-theorem rs_unmake_eq (b : Board) (bits : UInt64)
-    (hturn : b.turn ≤ 1) (hfull : 1 - b.turn ≤ b.fullmove) (hfull' : b.fullmove < 4294967296)
-    (hC : (decode bits).castle = true → castleRook (decode bits).target ≠ none)
-    (hP : (decode bits).castle = false → (decode bits).pieceAttacked < 7 ∧ ((decode bits).enPassant = false →
-        (if (decode bits).promotion != 0 then (decode bits).promotion < 7 else (decode bits).pieceMoved < 7))) :
-    Rs.Bitboard.unmake (toRsSide b.white) (toRsSide b.black) b.turn b.ep b.fullmove b.halfmove bits =
-      some (boardFields (unmakeF b (decode bits))) := by
-  have htg := target_lt bits
-  have hsrc := source_lt bits
-  have hprom : (decode bits).promotion < 18446744073709551616 := field_lt64 _ _ _
-  have hpm : (decode bits).pieceMoved < 18446744073709551616 := field_lt64 _ _ _
-  have hpa : (decode bits).pieceAttacked < 18446744073709551616 := field_lt64 _ _ _
-  unfold Rs.Bitboard.unmake
-  obtain ⟨f1, f2, f3, f4, f5, f6, f7, f8, f9, f10, f11, f12, f13, f14, f15, f16⟩ := fold_decode bits
-  simp only [rs_get_previous_halfmove, rs_get_previous_en_passant_square, rs_is_self_lost_king_side_castle,
-    rs_is_self_lost_queen_side_castle, rs_is_opponent_lost_king_side_castle, rs_is_opponent_lost_queen_side_castle,
-    rs_get_piece_moved, rs_get_promotion_piece,
-    rs_get_piece_attacked, rs_get_source_square, rs_get_target_square, rs_is_castle_move, rs_is_en_passant_attack,
-    rs_is_promotion, f1, f2, f3, f4, f5, f6, f7, f8, f9, f10, f11, f12, f13, f14, f15, f16]
-  clear f1 f2 f3 f4 f5 f6 f7 f8 f9 f10 f11 f12 f13 f14 f15 f16
-  generalize decode bits = f at *
-  clear bits
-  have hc1 : Rs.chk Rs.Ty.u32 (1 - (b.turn : Int)) = some ((1 - b.turn : Nat) : Int) := by
-    rw [Rs.chk_u32 (by omega) (by omega)]; congr 1; omega
-  have hc2 : Rs.chk Rs.Ty.u32 ((b.fullmove : Int) - ((1 - b.turn : Nat) : Int)) = some ((b.fullmove - (1 - b.turn) : Nat) : Int) := by
-    rw [Rs.chk_u32 (by omega) (by omega)]; congr 1; omega
-  simp only [rs_is_white_turn_eq, hc1, hc2, rs_opposite_turn_eq b.turn hturn, Option.bind_eq_bind, Option.bind_some,
-    Option.pure_def, shl_one _ hsrc, shl_one _ htg]
-  have hT : b.turn = 0 ∨ b.turn = 1 := by omega
-  obtain ⟨mA1, mD1, mF1, mH1, mA8, mD8, mF8, mH8⟩ := castle_masks
-  rw [unmakeF_eq]
-  unfold unMover unOther
-  rcases hT with hT | hT <;>
-  · simp only [hT, show ((1 - 0 : Nat) == 0) = false from rfl, show ((0 : Nat) == 0) = true from rfl,
-      show ((1 - 1 : Nat) == 0) = true from rfl, show ((1 : Nat) == 0) = false from rfl, Bool.false_eq_true,
-      if_false, if_true, flags2, Board.whiteTurn, Board.active, Board.passive, boardFields, Bool.not_true, Bool.not_false]
-    cases hcas : f.castle
-    · simp only [Bool.false_eq_true, if_false]
-      obtain ⟨hpa7, hx'⟩ := hP hcas
-      cases hep : f.enPassant
-      · simp only [Bool.false_eq_true, if_false]
-        have hx := hx' hep
-        cases hpr : (f.promotion != 0)
-        · -- normal move
-          simp only [hpr, Bool.false_eq_true, if_false] at hx ⊢
-          simp only [occ_index _ hpm, occ_index _ hpa, Option.bind_some, side_idx _ _ hx, side_idx _ _ hpa7,
-            side_set _ _ hx, side_set _ _ hpa7, repack, toRs_qs, toRs_ks, get_set_same _ _ hx, set_set_same, NO_PIECE,
-            with_flags_set _ _ _ _ _ rfl rfl, clearBit, Nat.sub_zero, Nat.add_zero, hpr, Bool.false_eq_true, if_false, if_true]
-        · -- promotion
-          simp only [hpr, if_true] at hx ⊢
-          simp only [occ_index _ hprom, occ_index _ hpa, pawns_index, Option.bind_some, side_idx _ _ hx, side_idx _ _ hpa7,
-            side_idx _ 1 (by decide), side_set _ 1 (by decide),
-            side_set _ _ hx, side_set _ _ hpa7, repack, toRs_qs, toRs_ks, NO_PIECE, set_one, get_one,
-            with_flags_set _ _ _ _ _ rfl rfl, clearBit, Nat.sub_zero, Nat.add_zero, hpr, Bool.false_eq_true, if_false, if_true]
-      · -- en passant
-        simp only [if_true, pawns_index, occ_index _ hpa, Option.bind_some, side_idx _ 1 (by decide), side_set _ 1 (by decide),
-          side_idx _ _ hpa7, side_set _ _ hpa7, shl8, shr8,
-          repack, toRs_qs, toRs_ks, set_one, get_one, clearBit, epVictim, Nat.sub_zero, Nat.add_zero, Bool.false_eq_true,
-          with_flags_set _ _ _ _ _ rfl rfl, if_false, if_true]
-    · -- castle
-      have hr := hC hcas
-      simp only [if_true]
-      unfold castleRook at hr ⊢
-      have c1 : Rs.C1 = ((C1 : Nat) : Int) := rfl
-      have g1 : Rs.G1 = ((G1 : Nat) : Int) := rfl
-      have c8 : Rs.C8 = ((C8 : Nat) : Int) := rfl
-      have g8 : Rs.G8 = ((G8 : Nat) : Int) := rfl
-      simp only [c1, g1, c8, g8, Int.natCast_inj, mA1, mD1, mF1, mH1, mA8, mD8, mF8, mH8, Option.bind_some,
-        rs_unmake_castle_eq]
-      by_cases t1 : f.target = C1
-      · simp [t1, C1, G1]
-      · by_cases t2 : f.target = G1
-        · simp [t2, G1, C1]
-        · by_cases t3 : f.target = C8
-          · simp [t3, C8, G1, C1]
-          · by_cases t4 : f.target = G8
-            · simp [t4, G8, C8, G1, C1]
-            · exfalso; simp [t1, t2, t3, t4] at hr
-
-#print axioms rs_unmake_eq
-
-/-- `make` on a model move -/
-theorem rs_make_move_eq (b : Board) (m : Board.Move)
-    (hturn : b.turn ≤ 1) (hfull : b.fullmove + b.turn < 4294967296)
-    (hhalf : m.f.halfmoveReset = false → b.halfmove + 1 < 4294967296)
-    (hC : m.f.castle = true → castleRook m.f.target ≠ none)
-    (hP : m.f.castle = false → m.f.enPassant = false →
-      m.f.pieceAttacked < 7 ∧ (if m.f.promotion != 0 then m.f.promotion < 7 else m.f.pieceMoved < 7)) :
-    Rs.Bitboard.make (toRsSide b.white) (toRsSide b.black) b.turn b.ep b.fullmove b.halfmove m.bits =
-      some (boardFields (Board.make b m)) :=
-  rs_make_eq b m.bits hturn hfull hhalf hC hP
-
-/-- `unmake` on a model move -/
-theorem rs_unmake_move_eq (b : Board) (m : Board.Move)
-    (hturn : b.turn ≤ 1) (hfull : 1 - b.turn ≤ b.fullmove) (hfull' : b.fullmove < 4294967296)
-    (hC : m.f.castle = true → castleRook m.f.target ≠ none)
-    (hP : m.f.castle = false → m.f.pieceAttacked < 7 ∧ (m.f.enPassant = false →
-        (if m.f.promotion != 0 then m.f.promotion < 7 else m.f.pieceMoved < 7))) :
-    Rs.Bitboard.unmake (toRsSide b.white) (toRsSide b.black) b.turn b.ep b.fullmove b.halfmove m.bits =
-      some (boardFields (Board.unmake b m)) :=
-  rs_unmake_eq b m.bits hturn hfull hfull' hC hP
-
-/-! non-vacuity: 1. e2-e4 on a small position; a piece code 7 panics (array of 7) -/
-def demoPos : Board :=
-  { white := { pawns := bitU 52, kings := bitU 60 }, black := { kings := bitU 4 }, turn := 0, ep := 0, fullmove := 1, halfmove := 3 }
-def demoMove : Board.Move := ⟨encode { pieceMoved := 1, source := 52, target := 36, nextEp := 44, prevHalfmove := 3, halfmoveReset := true }, 0⟩
-example : (Board.make demoPos demoMove).white.pawns = bitU 36 ∧ (Board.make demoPos demoMove).ep = 44 ∧
-    (Board.make demoPos demoMove).turn = 1 := by decide
-example : Rs.Bitboard.make (toRsSide demoPos.white) (toRsSide demoPos.black) 0 0 1 3 demoMove.bits =
-    some (boardFields (Board.make demoPos demoMove)) :=
-  rs_make_move_eq demoPos demoMove (by decide) (by decide) (by decide) (by decide) (by decide)
-example : Rs.Bitboard.unmake (toRsSide (Board.make demoPos demoMove).white) (toRsSide (Board.make demoPos demoMove).black) 1 44 1 0
-    demoMove.bits = some (boardFields (Board.unmake (Board.make demoPos demoMove) demoMove)) :=
-  rs_unmake_move_eq (Board.make demoPos demoMove) demoMove (by decide) (by decide) (by decide) (by decide) (by decide)
-example : Rs.Bitboard.make (toRsSide demoPos.white) (toRsSide demoPos.black) 0 0 1 3 (encode { pieceMoved := 7, source := 52, target := 36 }) = none := by
-  decide
-
-end Inkayaku.Translated
+import Inkayaku.Props.Translated.Make
+import Inkayaku.Props.Translated.Unmake
+/-! Part of `Props/Translated`: compatibility umbrella.  The theorems about `Bitboard::{make, make_castle}` are in `Make.lean`
+(`rs_make_castle_eq`, `rs_make_eq`, `rs_make_move_eq`), those about `Bitboard::{unmake, unmake_castle}` in `Unmake.lean`
+(`rs_unmake_castle_eq`, `rs_unmake_eq`, `rs_unmake_move_eq`), the shared helper lemmas in `MakeUnmakeCommon.lean`.  A property
+lists the file(s) of the functions it relies on, not this one. -/
